@@ -59,6 +59,30 @@ def _replay_blocks(blocks):
     return n, nontriv, drift[:5], viol[:5], samples
 
 
+def _replay_flush_blocks(blocks):
+    """Extension (flush protocol, not part of C01's statement): replay MC_Flush states; differences are reported as drift."""
+    n, drift = 0, []
+    for b in blocks:
+        st = parse_state(b.strip())
+        fed, cuts, flushes = st['fed'], st['cuts'], st['flushes']
+        if not fed:
+            continue
+        n += 1
+        for kind, key in (('3', 'd3'), ('4', 'd4'), ('F', 'dF')):
+            m = st[key]
+            exp = rf.model_obsF(m, cuts) if kind == 'F' else rf.model_obs34(m)
+            try:
+                tr, det = record_trace(kind, fed, cuts, flushes)
+                got = rf.project(det, kind)
+                if kind == 'F':
+                    got = {**got, 'chunks': ()}
+            except Exception as ex:
+                got = {'raised': repr(ex)}
+            if got != exp and len(drift) < 3:
+                drift.append('flush protocol: detector %s signal %s chunks %s flush %s: code %s model %s' % (kind, fed, cuts, flushes, got, exp))
+    return n, drift
+
+
 def random_partition(rng, n):
     cuts = []
     left = n
@@ -176,6 +200,20 @@ def run(chk):
     chk.evals(tot)
     chk.cov['traces_validated_against_impl'] += tot
     chk.part('fkm_sweep', runs=tot, alphabet='-%d..%d' % (amp, amp), max_len=nlen)
+    # (A'') extension beyond C01: the flush protocol (MC_Flush), replayed; mismatches are drift, never a C01 violation
+    flcfg = os.path.join(SPEC, 'rainflow', 'MC_Flush_quick.cfg' if quick else 'MC_Flush_thorough.cfg')
+    flres = tlc.run(os.path.join(SPEC, 'rainflow', 'MC_Flush.tla'), flcfg, dump=True, timeout=3000, heap='12g')
+    chk.tlc(os.path.basename(flcfg), flres, 'extension: flush=True on any chunk; final flush = one-piece flush; tail after flush')
+    if flres.violated:
+        chk.drift.append('MC_Flush invariant %s violated (extension model)' % flres.violated)
+    if flres.dump_path and os.path.exists(flres.dump_path):
+        ftot = 0
+        for n, drift in par.pmap(_replay_flush_blocks, par.split_dump(flres.dump_path, 64), chunksize=1):
+            ftot += n
+            chk.drift += drift
+        chk.part('flush_extension', states_replayed=ftot)
+        chk.cov['traces_validated_against_impl'] += ftot
+        os.remove(flres.dump_path)
     # (C) recorded executions of longer signals, validated by TLC against the spec
     rng = random.Random(chk.seed * 7919 + 17)
     ntr = 240 if quick else 2400
